@@ -6,7 +6,7 @@
 (***************************************************************************)
 EXTENDS Project, TypeLang, Json
 
-CONSTANT Mode,   \* "disc" | "graphs3" | "edges" | "edges2" | "kinds" | "pairroots" | "layouts" | "derives" | "emits"
+CONSTANT Mode,   \* "disc" | "graphs3" | "graphs4" | "edges" | "edges2" | "kinds" | "pairroots" | "layouts" | "derives" | "emits"
          EmitDepth \* 2 | 3 : deepest frame path of the emit cases
 VARIABLE c
 
@@ -36,6 +36,19 @@ Graphs3 ==
        serde |-> [n \in N3 |-> TRUE],
        roots |-> {[site |-> "param", ctx |-> "direct", to |-> r, ty |-> Node(r)] : r \in rs}]
       : d \in [N3 -> SUBSET N3], rs \in (SUBSET N3) \ {{}} }
+
+\* all 543 acyclic digraphs on FOUR nodes (every naming order of every shape: a dependent with fewer dependencies than
+\* the type it depends on, "narrow top, wide below", needs four), plain struct fields, every source node a root
+N4 == {"A", "B", "C", "D"}
+Step4(e, R) == [n \in N4 |-> R[n] \cup e[n] \cup UNION {R[m] : m \in e[n]}]
+Closure4(e) == Step4(e, Step4(e, Step4(e, Step4(e, [n \in N4 |-> {}]))))
+Dags4 == {e \in [N4 -> SUBSET N4] : \A n \in N4 : n \notin Closure4(e)[n]}
+Graphs4 ==
+    { [kind |-> "graph", nodes |-> <<"A", "B", "C", "D">>,
+       edges |-> [n \in N4 |-> {[ctx |-> "direct", to |-> m, ty |-> Node(m)] : m \in e[n]}],
+       serde |-> [n \in N4 |-> TRUE],
+       roots |-> {[site |-> "param", ctx |-> "direct", to |-> r, ty |-> Node(r)] : r \in {n \in N4 : \A m \in N4 : n \notin e[m]}}]
+      : e \in Dags4 }
 
 \* base shapes (acyclic) with ONE edge realised through each of the 22 contexts and each root site/ctx
 Chain   == [A |-> {"B"}, B |-> {"C"}, C |-> {}]
@@ -194,6 +207,7 @@ EmitCases ==
 
 Space == CASE Mode = "disc"    -> DiscCases
            [] Mode = "graphs3" -> Graphs3
+           [] Mode = "graphs4" -> Graphs4
            [] Mode = "edges"   -> EdgeCases
            [] Mode = "layouts" -> LayoutCases
            [] Mode = "derives" -> DeriveCases
